@@ -354,6 +354,23 @@ def t_hdrblk(ctx):
 
 def t_many(ctx):
     ctx.hyp(s_many(), ctx.n(6, 60))
+    # the same boundaries, every combination once (count 252 / 253 / 254 of inputs, outputs, witness items; with and without witness)
+    k_ = 0
+    for n in (252, 253, 254, 300):
+        for which in ('vin', 'vout', 'witems'):
+            for wit_on in (False, True):
+                k_ += 1
+                if k_ % ctx.nshards != ctx.shard or (which == 'witems' and not wit_on):
+                    continue
+                t = {'version': 1, 'vin': [['07' * 32, 1, '51', 5]], 'vout': [[1, '51']], 'wit': [['aa']] if wit_on else None, 'locktime': 0}
+                if which == 'vin':
+                    t['vin'] = [[bytes([i % 256]).hex() * 32, i, '', 0xffffffff - i] for i in range(n)]
+                    t['wit'] = [['aa'] if i == n - 1 else [] for i in range(n)] if wit_on else None
+                elif which == 'vout':
+                    t['vout'] = [[i, '51'] for i in range(n)]
+                else:
+                    t['wit'] = [['%02x' % (i % 256) for i in range(n)]]
+                ctx.run({'kind': 'tx', 'tx': t, 'ext': ['00'], 'cuts': [5, 41, 2000, 9000], 'faults_mutable': False})
     for v in ctx.my([0, 1, 0xfc, 0xfd, 0xfe, 0xff, 0x100, 0xffff, 0x10000, 0x10001, 0xffffffff, 0x100000000, 0x100000001,
                      2 ** 63, 2 ** 64 - 1, 0x7fffffff, 0x80000000]):
         ctx.run({'kind': 'varint', 'v': v})
